@@ -175,6 +175,7 @@ func generalPlan(tier string, faults bool) []PlanItem {
 			PlanItem{scnPreemptThenRelease("preempt-then-release-K1", K1), d},
 			PlanItem{scnRestartAfterHungStop("restart-after-hung-stop-K1", K1), d},
 			PlanItem{scnReelectLinger("reelect-lingering-callbacks-K1", K1), d},
+			PlanItem{scnStopLostAck("stop/stopctx-del-lost-ack-K1", K1), d + 1},
 			PlanItem{scnStopSlowWinddown("stop/promote-callback-outlives-stop-wait-K1", K1, Item{Do: "stop"}), d},
 			PlanItem{scnStopSlowWinddown("stopctx/promote-callback-outlives-stop-wait-K1", K1, Item{Do: "stopctx", DeleteKey: true}), d},
 			PlanItem{scnReelectSlowMetric("reelect-during-slow-demotion-metric-K1", K1), d},
@@ -346,6 +347,21 @@ func scnValidationAheadOfHeartbeat(name string) *Scenario {
 	s.SplitApply = true
 	s.RandMenu = nil
 	s.DevFrom, s.DevUntil = 380*ms, 4*s.H+50*ms
+	return s
+}
+
+// stop/stopctx-del-lost-ack: the leader shuts down with DeleteKey; the acknowledgement of a
+// shutdown operation may get lost after the store applied it (the only fault offered); B
+// takes the vacant key. Whatever the shutdown does after the lost acknowledgement happens
+// when the key may already be B's.
+func scnStopLostAck(name string, k kfn) *Scenario {
+	s := scnStop(name, k, Item{Do: "stopctx", DeleteKey: true}, "A", "B")
+	s.AllowLost = true
+	s.FaultLabels = []string{"shutdown"}
+	s.Horizon += 2 * time.Second // room for a retrying shutdown
+	// deviations around the shutdown only: the lost acknowledgement plus one more (the
+	// successor's jitter draw, a latency)
+	s.DevFrom, s.DevUntil = 2*s.H+37*ms-ms, 2*s.H+37*ms+250*ms
 	return s
 }
 
